@@ -184,8 +184,8 @@ def r3_composition(repo: Repo, rep):
                  "translate/rotate delegate to the inner public volume; always through the operands' public volume()", floor=9,
                  why="bypassing volume() ignores a user-set volume; a wrong combination breaks additivity/multiplicativity")
     ops = f"{DOM}.domainoperations"
-    A, Bv = "self.domain_a.volume(params, device=device)", "self.domain_b.volume(params, device=device)"
-    Ab, Bb = "self.domain.domain_a.boundary.volume(params, device=device)", "self.domain.domain_b.boundary.volume(params, device=device)"
+    A, Bv = "self.domain_a.volume(params, device)", "self.domain_b.volume(params, device)"
+    Ab, Bb = "self.domain.domain_a.boundary.volume(params, device)", "self.domain.domain_b.boundary.volume(params, device)"
 
     def rets(ci, name="_get_volume"):
         fi = ci.methods.get(name)
@@ -216,7 +216,7 @@ def r3_composition(repo: Repo, rep):
             rep.undecided(R, fi.site(p.ret_node), fi.fq, "path decided on self.contained", "no such guard")
             continue
         want = f"{A} - {Bv}" if contained else A
-        rep.check(R, dump(p.ret) == want, fi.site(p.ret_node), fi.fq, f"contained={contained}: {want.replace('(params, device=device)', '')}", dump(p.ret)[:120], dump(p.ret)[:120])
+        rep.check(R, dump(p.ret) == want, fi.site(p.ret_node), fi.fq, f"contained={contained}: {want.replace('(params, device)', '')}", dump(p.ret)[:120], dump(p.ret)[:120])
     ci = repo.cls(f"{ops}.cut.CutBoundaryDomain")
     fi, ps = rets(ci)
     for p in ps:
@@ -245,7 +245,7 @@ def r3_composition(repo: Repo, rep):
             fi, ps = rets(ci, m)
             for p in ps:
                 t = dump(p.ret).replace(" ", "")
-                ok = t in ("self.domain.volume(params=params,device=device)", "self.domain.volume(params,device=device)", "self.domain.volume(params,device)")
+                ok = t in ("self.domain.volume(params,device)", "self.domain.volume(params,device)", "self.domain.volume(params,device)")
                 rep.check(R, ok, fi.site(p.ret_node), fi.fq, "rigid motions keep the measure: the inner domain's public volume()", dump(p.ret), dump(p.ret))
         if "volume" in ci.methods:
             # volume() is overridden without consulting _user_volume: set_volume must reach the inner domain
@@ -319,7 +319,9 @@ def r5_density(repo: Repo, rep):
             src = ast.unparse(sf.node)
             if "compute_n_from_density" not in src:
                 # delegating samplers (e.g. single boundary point's grid) are fine when they forward d
-                if "d=d" in src.replace(" ", "") or "NotImplementedError" in src:
+                forwards_d = any(isinstance(c, ast.Call) and isinstance(c.func, ast.Attribute) and c.func.attr in ("sample_random_uniform", "sample_grid")
+                                 and ((len(c.args) >= 2 and dump(c.args[1]) == "d") or dump(kwarg(c, "d")) == "d") for c in ast.walk(sf.node))
+                if forwards_d or "NotImplementedError" in src:
                     continue
                 rep.violation(R, sf.site(), sf.fq, "density branch uses compute_n_from_density", "no such call", "no density conversion")
                 continue
